@@ -754,9 +754,18 @@ func runCG(id string, ctx *sim.RunCtx, data json.RawMessage) (*sim.Outcome, erro
 		}
 		hist = append(hist, "|")
 		saved := ctx.ProcTimeout
+		savedProcs := ctx.GoMaxProcs
 		ctx.ProcTimeout = 20 * time.Second
+		for _, op := range p.Ops {
+			if len(op.Apis) >= 32 {
+				// the only place where parallelism could matter: give the process real parallelism, so that
+				// a tree under test that analyses many endpoints concurrently is not serialised by accident
+				ctx.GoMaxProcs = 8
+			}
+		}
 		res, err := ctx.Run(proc)
 		ctx.ProcTimeout = saved
+		ctx.GoMaxProcs = savedProcs
 		if err != nil {
 			return nil, err
 		}
